@@ -152,9 +152,12 @@ pub trait IterMapExt<T> {
             Ok(v) => v@.len() == self.mv().len() && forall|i: int| 0 <= i < self.mv().len() ==> call_ensures(f, (&self.mv()[i],), Ok::<U, E>(#[trigger] v@[i])),
             Err(e) => exists|i: int| 0 <= i < self.mv().len() && call_ensures(f, (&#[trigger] self.mv()[i],), Err::<U, E>(e)),
         };
+}
+pub trait IntoIterFilterExt<T>: Sized {
+    spec fn fv(&self) -> Seq<T>;
     fn into_iter_filter<F: Fn(&T) -> bool>(self, f: F) -> (r: Vec<T>)
-        requires forall|i: int| 0 <= i < self.mv().len() ==> call_requires(f, (&#[trigger] self.mv()[i],)),
-        ensures exists|p: spec_fn(T) -> bool| r@ == #[trigger] self.mv().filter(p) && forall|x: T| call_ensures(f, (&x,), #[trigger] p(x));
+        requires forall|i: int| 0 <= i < self.fv().len() ==> call_requires(f, (&#[trigger] self.fv()[i],)),
+        ensures exists|p: spec_fn(T) -> bool| r@ == #[trigger] self.fv().filter(p) && forall|x: T| call_ensures(f, (&x,), #[trigger] p(x));
 }
 /// `r` is `s` with the elements rejected by `keep` removed (order preserved)
 pub open spec fn filtered<T>(s: Seq<T>, keep: spec_fn(T) -> bool, r: Seq<T>) -> bool {
@@ -198,6 +201,9 @@ impl<T> IterMapExt<T> for Vec<T> {
         }
         Ok(out)
     }
+}
+impl<T> IntoIterFilterExt<T> for Vec<T> {
+    open spec fn fv(&self) -> Seq<T> { self@ }
     /// trusted (external_body): keeps, in order, exactly the elements on which the predicate returned true
     /// (`p(x)` is the value `f` returned on `x`)
     #[verifier::external_body]
@@ -249,4 +255,28 @@ pub proof fn lemma_filter_congr<T>(s: Seq<T>, r: Seq<T>, p2: spec_fn(T) -> bool)
     let p1 = choose|p1: spec_fn(T) -> bool| r == #[trigger] s.filter(p1) && forall|x: T| #[trigger] p1(x) == p2(x);
     lemma_filter_same_pred(s, p1, p2);
 }
+
+/// slices as iterables: same contracts as for Vec (trusted, external_body)
+impl<T> IterExt<T> for [T] {
+    open spec fn elems(&self) -> Seq<T> { self@ }
+    #[verifier::external_body]
+    fn iter_position<F: Fn(&T) -> bool>(&self, f: F) -> (r: Option<usize>) { unimplemented!() }
+    #[verifier::external_body]
+    fn iter_any<F: Fn(&T) -> bool>(&self, f: F) -> (r: bool) { unimplemented!() }
+    #[verifier::external_body]
+    fn iter_find<F: Fn(&T) -> bool>(&self, f: F) -> (r: Option<&T>) { unimplemented!() }
+    #[verifier::external_body]
+    fn iter_all<F: Fn(&T) -> bool>(&self, f: F) -> (r: bool) { unimplemented!() }
+}
+impl<T> IterMapExt<T> for [T] {
+    open spec fn mv(&self) -> Seq<T> { self@ }
+    #[verifier::external_body]
+    fn iter_map<U, F: Fn(&T) -> U>(&self, f: F) -> (r: Vec<U>) { unimplemented!() }
+    #[verifier::external_body]
+    fn iter_try_map<U, E, F: Fn(&T) -> Result<U, E>>(&self, f: F) -> (r: Result<Vec<U>, E>) { unimplemented!() }
+}
+
+/// `<[T]>::to_vec`: element-wise clone
+pub assume_specification<T: Clone> [ <[T]>::to_vec ] (s: &[T]) -> (r: Vec<T>)
+    ensures r@.len() == s@.len(), forall|i: int| 0 <= i < s@.len() ==> call_ensures(T::clone, (&#[trigger] s@[i],), r@[i]);
 } // verus!
